@@ -32,6 +32,9 @@ Outs == {NOut(P(p)) : p \in Paths}
         \cup {NOut(F(p, <<Fl("default", <<q>>)>>)) : p \in {XAB, XN, XL9}, q \in {S("d"), Y, XL9}}
         \cup {NOut(F(S("s"), <<Fl(f, <<q>>)>>)) : f \in {"append", "prepend", "plus", "split", "remove", "default"}, q \in {Y, XAB, XL9}}
         \cup {NOut(F(VP("x", "l"), <<Fl(f, <<q>>)>>)) : f \in {"join", "concat", "map", "where"}, q \in {Y, XL9}}
+        \* a missing variable where a filter wants a number
+        \cup {NOut(F(Y, <<Fl(f, <<q>>)>>)) : f \in {"truncate", "truncatewords", "slice", "round", "at_most", "times"}, q \in {XL0, XL9, V("nosuch")}}
+        \cup {NOut(F(Y, <<Fl("slice", <<I(0), q>>)>>)) : q \in {XL0, XL9}}
         \cup {NOut(Tern(F(p, <<>>), c, alt, <<>>, <<>>)) : p \in {Y, XAB}, c \in {XL9, Y, Cmp("==", XAB, S("B"))}, alt \in {NoAltE, XL9, S("alt")}}
         \cup {NOut(P([k |-> "tstr", parts |-> <<S("<"), P(XAB), S(">")>>, q |-> "'"]))}
 Conds == {Y, XAB, XL9, Not(XL9), Cmp("==", XAB, S("B")), Cmp("==", XL9, NilE), Cmp("!=", XL9, Y), Cmp("<", XL9, I(1)),
@@ -45,6 +48,12 @@ Tags == {If(c, <<NText("T")>>, <<>>, Else(<<NText("F")>>)) : c \in Conds}
         \cup {Assign("z", P(p)) : p \in {XAB, XL9}} \cup {NOut(P(V("z"))), Echo(P(XL9)), Cycle("", <<XL9, Y>>, "|c")}
         \cup {Include(S("p"), "none", NilE, "", <<WArg("v", p)>>) : p \in {XAB, XL9}}
         \cup {RenderT(S("p"), "with", p, "v", <<>>) : p \in {XAB, XL9}}
+        \* partials, macros and inner loops inside a loop: with the full data nothing is missing
+        \cup {For("i", VP("x", "l"), "x.l", NoOpt, NoOpt, FALSE, b, NoElse) :
+                b \in {<<RenderT(S("p"), "none", NilE, "", <<WArg("v", V("i"))>>)>>, <<Include(S("p"), "none", NilE, "", <<WArg("v", V("i"))>>)>>,
+                       <<Macro("m", <<Param("a")>>, <<NOut(P(V("a")))>>), Call("m", <<V("i")>>, <<>>)>>,
+                       <<For("j", VP("x", "l"), "x.l", NoOpt, NoOpt, FALSE, <<NOut(P(V("j"))), NOut(P(Path(<<Key("forloop"), Key("parentloop"), Key("index")>>)))>>, NoElse)>>,
+                       <<RenderT(S("p"), "for", VP("x", "l"), "v", <<>>)>>}}
         \cup {Include(V("nosuch"), "none", NilE, "", <<>>), With(<<WArg("w", XL9)>>, <<NText("in"), NOut(P(Y))>>),
               With(<<WArg("w", XL9)>>, <<NOut(P(V("w")))>>), Capture("z", <<NOut(P(XL9))>>)}
 MCPool == Outs \cup Tags
